@@ -1106,3 +1106,13 @@ class Pair(object):
             self.servant.closeAll()
         except Exception:          # noqa
             pass
+
+
+def tolerate_socket_errors(ctx, errs, n):
+    """Errors of the harness's own real sockets: a handful is reported and
+    tolerated, more than 1 % of the cases makes the run inconclusive."""
+    if errs:
+        ctx.hit("harness_socket_errors", len(errs))
+        ctx.extra.setdefault("harness_socket_errors", []).extend(errs[:5])
+    if len(errs) > max(2, n // 100):
+        ctx.inconclusive_case("%d harness socket errors, e.g. %s" % (len(errs), errs[0]))
